@@ -155,6 +155,9 @@ class MTD:
     def seconds(self):
         return z3.ToInt(self.sec)
 
+    def total_seconds(self):
+        return z3.ToReal(self.days_) * 86400 + self.sec
+
     def sym_radd(self, other, it, br):
         return lift(other).sym_add(self, it, br)
 
@@ -284,7 +287,9 @@ class MXlDateTime(T.DateTime):
 
     def sym_sub(self, other, it, br):
         if isinstance(other, MXlDateTime):
-            return self.to_number(it, br) - other.to_number(it, br)            # ExcelType.__sub__: Number - Number
+            # whatever __sub__ the repo's DateTime class has (ExcelType.__sub__: Number.cast(a).value - Number.cast(b).value), interpreted
+            r = it.call_function(T.DateTime.__sub__, [self, other], {}, br)
+            return r.term if isinstance(r, MNumberV) else r
         raise Unsupported('DateTime - ' + type(other).__name__)
 
     def sym_cmp(self, opname, other, it, br):
@@ -300,7 +305,29 @@ class MXlDateTime(T.DateTime):
         return {'Lt': a < b, 'LtE': a <= b, 'Gt': a > b, 'GtE': a >= b, 'Eq': a == b, 'NotEq': a != b}[opname]
 
 
+class MNumberV(T.Number):
+    """Number(term): a Number object built by the interpreted code around a symbolic value."""
+    __symbolic__ = True
+    __slots__ = ('term',)
+
+    def __new__(cls, term):
+        inst = object.__new__(cls)
+        inst.term = term
+        return inst
+
+    @property
+    def value(self):
+        return self.term
+
+
+def m_number_ctor(it, br, value):
+    if is_sym(value):
+        return MNumberV(value)
+    return T.Number(value)
+
+
 DATE_MODELS = dict(MD.DIGIT_MODELS)
+DATE_MODELS[T.Number] = m_number_ctor
 DATE_MODELS.update({datetime.timedelta: m_timedelta, int: m_int, list: m_list, len: m_len})
 try:
     from dateutil.relativedelta import relativedelta as _rd
